@@ -36,6 +36,10 @@ func main() {
 			continue
 		}
 		alone := expect
+		planCache := g.Name == "plan-cache"
+		if planCache {
+			c08.ResetCaches() // the types are first seen by the concurrent calls, not by the expectation runs above
+		}
 		var wg sync.WaitGroup
 		var mu sync.Mutex
 		bad := ""
@@ -61,6 +65,14 @@ func main() {
 						return
 					}
 					prevKeep, prevText, prevName = keep, text, o.Name
+					if planCache {
+						if msg := c08.FreshTypeWrite(t, i); msg != "" {
+							mu.Lock()
+							bad = "MISMATCH fresh-type result-differs: " + msg
+							mu.Unlock()
+							return
+						}
+					}
 				}
 			}(t)
 		}
